@@ -203,7 +203,21 @@ def run(rep, tier="quick", replay=None, evidence_dir=None):
                 continue
             _, reg = regs[(fn, v)]
             okv = any(x in reg for x in writes)
-            rep.ob("C15.R5", "%s %s stores its result in the caller's buffer" % (fn, v), okv, "no assignment to *stream on this arm", b.loc())
+            # ... on every success path: no Ok is built on a path of this arm that avoids the assignment
+            if okv:
+                import readset
+                avoid = set(x for x in writes if x in reg)
+                seen = set()
+                st_ = [0]
+                while st_:
+                    x = st_.pop()
+                    if x in seen or x in avoid or x not in reg:
+                        continue
+                    seen.add(x)
+                    st_.extend(b.succ[x])
+                okv = not readset.ok_constructions(b, seen)
+            rep.ob("C15.R5", "%s %s stores its result in the caller's buffer on every success path" % (fn, v), okv,
+                   "a success path of this arm returns without replacing *stream: the payload is left as it was (e.g. an early return for a special input), so the block is not a stream of this codec", b.loc())
 
     rep.floor("C15", "obligations", len(rep.obligations), 55)
     rep.not_decided = ["that the codec crates round-trip every payload at every level", "acceptance by reference tools (deflate/bzip2/xz/snappy reference implementations)"]
